@@ -1,10 +1,12 @@
 #!/bin/bash
-# round 2: /tmp/seedout2-C##/k
+# round 2: seeded/C##-r2-k through the owning property's quick check (patched scratch copy, /repo untouched).
+# usage: OUT=<file> tools/seed_matrix2.sh [C07 C08 ...]   (default: all)
 cd /verif
 out=${OUT:-/tmp/seed2_matrix.txt}
-for d in $(ls -d /tmp/seedout2-C*/[123] 2>/dev/null | sort); do
-  p=$(echo $d | sed 's|/tmp/seedout2-\(C[0-9][0-9]\)/\([123]\)|\1|'); k=$(basename $d)
+props=${*:-$(ls seeded | grep -- -r2- | cut -d- -f1 | sort -u)}
+for p in $props; do for k in 1 2 3; do
+  d=/verif/seeded/$p-r2-$k; [ -f $d/patch.diff ] || continue
   grep -q "^$p-r2-$k |" $out 2>/dev/null && continue
   r=$(tools/mutant.sh $p $d/patch.diff 2>&1 | grep -v "KNOWN-FINDING\|formats exercised\|^C19:" | head -2 | tr '\n' ' ' | cut -c1-240)
   echo "$p-r2-$k | $r" >> $out
-done
+done; done
